@@ -283,4 +283,22 @@ theorem C18_iequiv_refl_symm (g h : DG) :
 
 example : IA.same ⟨[1], [2, 3], []⟩ ⟨[2, 3], [1], []⟩ = true := by decide
 
+
+/-- the product test is homogeneous: a context of probability 1e-7 and the same context with probability 1/2 (every entry of the slice
+    multiplied by the same non-zero number) get the same verdict, exactly - only a tolerance that is *absolute* can tell them apart -/
+theorem C18_ci_scale_invariant (c pxyz pxz pyz pz : Rat) (hc : c ≠ 0) :
+    (c * pxyz) * (c * pz) = (c * pxz) * (c * pyz) ↔ pxyz * pz = pxz * pyz := by
+  have hcc : c * c ≠ 0 := mul_ne_zero hc hc
+  constructor
+  · intro h
+    have h' : (c * c) * (pxyz * pz) = (c * c) * (pxz * pyz) := by
+      calc (c * c) * (pxyz * pz) = (c * pxyz) * (c * pz) := by ring
+        _ = (c * pxz) * (c * pyz) := h
+        _ = (c * c) * (pxz * pyz) := by ring
+    exact mul_left_cancel₀ hcc h'
+  · intro h
+    calc (c * pxyz) * (c * pz) = (c * c) * (pxyz * pz) := by ring
+      _ = (c * c) * (pxz * pyz) := by rw [h]
+      _ = (c * pxz) * (c * pyz) := by ring
+
 end PgmVerif
